@@ -9,7 +9,8 @@
 
    Level(n) selects the operations offered at position n of the circuit:
      "quick"    all gates x all qubit assignments x angle values QuickTs (procedural form) and
-                angle value pi/4 (functional form); every angle expression once, spread over rz,
+                angle value pi/4 (functional form; the two-angle gate phased_x with all QuickTs pairs, so
+                that its two slots are told apart in both forms); every angle expression once, spread over rz,
                 crz (RotationCompiler) and qsystem rz (float(angle)); all measurements
      "full"     the same with angle values -8..8, both forms everywhere, and the angle expressions
                 also on zz_phase and both slots of phased_x
@@ -25,6 +26,7 @@ QuickTs == {-3, 1, 2, 5}
 Both == {"p", "f"}
 OpSet(name) ==
     CASE name = "quick" -> GateOps(GateNames, QuickTs, {"p"}) \cup GateOps(GateNames, {1}, {"f"})
+                           \cup GateOps({"phased_x"}, QuickTs, {"f"})   \* two angle slots: distinct values
                            \cup ExprOpsOnce \cup MeasOps(Both)
       [] name = "full"  -> GateOps(GateNames, -8..8, Both) \cup ExprOps(Both, TRUE) \cup MeasOps(Both)
       [] name = "core"  -> GateOps(GateNames, {1, 2}, {"p"}) \cup MeasOps({"p"})
